@@ -36,6 +36,7 @@ func checkC06(c *Ctx, r *Report) {
 	c06G3(c, r, a)
 	c06G4(c, r, a)
 	c06Once(c, r, a)
+	c06PerMember(c, r)
 	r.rule("C06.ALLSELS", "the selection walker's dispatching loop has no exit other than the exhaustion of the selection list")
 	c06AllSels(c, r, a, "C06.ALLSELS")
 	importRulesFrom(c, r, "C03", c03Rec, "C06.APPLYONCE", "a fragment is applied to one object once (the visited-set rule of C03.EXPO on the spread -> fragment edge, with the set the caller handed down - a set allocated in the callee is not seen by the sibling selections): applied twice, a failing field inside it yields two entries for one position, or a value next to its error entry", "C03.EXPO")
@@ -286,6 +287,19 @@ func c06IndexIdentity(c *Ctx, r *Report, fn *ssa.Function, e *pfxEngine, a *Anch
 							why = "the dispatcher is not applied to the list's element type"
 						}
 					}
+				}
+				// ... and they are the errors of THIS iteration: the prefixed value does not flow in through a phi at
+				// the loop header (a variable that some path of the body leaves as the previous element left it)
+				if pc.recv != nil {
+					_, phis := phiLeaves(stripIface(pc.recv))
+					stale := false
+					for ph := range phis {
+						if ph.Block() == l.head {
+							stale = true
+						}
+					}
+					r.check("C06.G1", fmt.Sprintf("%s: loop %d index prefix #%d prefixes errors made in this iteration", fnName(fn), li+1, k), in.Pos(), !stale,
+						"on some path through the loop body the error list that receives the index is still the one the previous element left: those errors, already collected, get a second index and are appended again - one failure is reported twice, under a wrong path")
 				}
 				r.check("C06.G1", fmt.Sprintf("%s: loop %d index prefix #%d is applied to the errors of the type dispatcher for the element type", fnName(fn), li+1, k), in.Pos(), fromDispatch,
 					"the element's errors come from "+why+", not from a static call of the type dispatcher on List.Base: an inner list resolved any other way gets no inner index, so a failing member of [[T]] is reported at [field, i] instead of [field, i, j] and takes its whole row with it")
